@@ -256,6 +256,13 @@ def systematic_programs():
         P.append(mk_program(nm(), [t], ["return a"], t, ["var", t], "identity"))
     for t in [L3, LB]:
         P.append(mk_program(nm(), [t], ["return a"], t, ["var", t], "identity-qlist", qlist=True))
+    # returns with more than ten bits / elements at one naming level (_ret.10 sorts before _ret.2 as text)
+    Q12, LB12 = ["qint", 12], ["tuple"] + [B] * 12
+    P.append(mk_program(nm(), [Q12], ["return a"], Q12, ["var", Q12], "identity-wide"))
+    P.append(mk_program(nm(), [["qint", 16]], ["return a"], ["qint", 16], ["var", ["qint", 16]], "identity-wide"))
+    P.append(mk_program(nm(), [LB12], ["return a"], LB12, ["var", LB12], "identity-wide", qlist=True))
+    P.append(mk_program(nm(), [Q3], ["return a ^ 5"], Q12, ["scalar", Q12], "widen"))
+    P.append(mk_program(nm(), [Q3], ["return a + 1"], Q12, ["scalar", Q12], "widen-wrap"))
     # rebuild of every tuple shape from its leaves (tuple display following the type)
     def rebuild(t, e):
         if t[0] != "tuple":
@@ -529,6 +536,7 @@ class Checker:
             idxs = sorted(set([0, 2 ** n - 1] + [rng.randrange(2 ** n) for _ in range(n_samples)]))
             exhaustive = False
         outs_by_bit = [[] for _ in range(m)]
+        all_flats = []
         readings = {}
         dec_seen = set()
         for idx in idxs:
@@ -537,6 +545,7 @@ class Checker:
             res.count(case, nontrivial=(idx != 0 and (len(argtys) > 1 or argtys[0][0] == "tuple" or ret[0] == "tuple")),
                       bucket=prog["kind"])
             flat = [b for t, v in zip(argtys, vals) for b in own_flat(t, v)]
+            all_flats.append(flat)
             exp_s = bstr(flat)[::-1]
             try:
                 s = qf.encode_input(*[lib_value(T, t, v) for t, v in zip(argtys, vals)])
@@ -600,7 +609,22 @@ class Checker:
             for i, j in itertools.combinations(range(len(oq)), 2):
                 if oq[i] == oq[j]:
                     self.stats["shared_qubit_pairs"] += 1
-                    if outs_by_bit[i] != outs_by_bit[j]:
+                    differ = outs_by_bit[i] != outs_by_bit[j]
+                    if differ:
+                        # the values two return bits *carry* are those of the function's bit-level expressions;
+                        # the Python oracle may differ from them where fixed-width arithmetic wraps (C01's business)
+                        try:
+                            vi, vj = [], []
+                            for fl in all_flats:
+                                kn = eval_expressions(qf, dict(zip(flat_in_names, fl)))
+                                vi.append(kn.get(exp_ret_names[i]))
+                                vj.append(kn.get(exp_ret_names[j]))
+                            if vi == vj:
+                                differ = False
+                                self.stats["skipped_c01"] += 1
+                        except Exception:  # noqa
+                            pass
+                    if differ:
                         res.violation(pcase, f"return bits {i} and {j} share qubit {oq[i]} but differ on some input",
                                       code=dict(output_qubits=oq))
         # ---- decode_counts on the observed readings (plus readings with an extra high character)
